@@ -74,3 +74,26 @@ Fixpoint no_effect_before_validation (l : list (action * string)) : bool :=
   end.
 
 Definition order_ok : bool := forallb (fun e => no_effect_before_validation (snd e)) order.
+
+(* ---- order of calls inside selected routines (Gen/Order.v call_order) ---- *)
+Fixpoint index_of (s : string) (l : list string) : option nat :=
+  match l with
+  | [] => None
+  | x :: r => if String.eqb s x then Some 0 else option_map S (index_of s r)
+  end.
+Definition before (fn a b : string) : bool :=
+  match find_fn fn call_order with
+  | Some l => match index_of a l, index_of b l with
+              | Some i, Some j => Nat.ltb i j
+              | _, _ => false
+              end
+  | None => false
+  end.
+(* the claim of an output path precedes moving the old file aside (C08, thread half) *)
+Definition claim_before_backup : bool := before "FileBuilder._build_file" "start_building_file" "back_up_and_remove".
+(* a failed output is deleted before its directory reservations are released (C09) *)
+Definition remove_before_release : bool := before "FileBuilder._handle_error_building_file" "_try_to_remove_file" "error_building_file".
+(* the cache file is moved aside and rewritten only after the root function returned (C16) *)
+Definition cache_replaced_after_success : bool :=
+  before "FileBuilder._build" "func" "back_up_and_remove" && before "FileBuilder._build" "back_up_and_remove" "write" &&
+  before "FileBuilder._build" "write" "_commit".
